@@ -36,6 +36,10 @@ type Stream interface {
 
 type StreamFrameType uint32
 
+// MaxStreamNameSize is the maximum size, in bytes, of a variable-length
+// field (database name, lease ID) of a stream frame or position map entry.
+const MaxStreamNameSize = 65536
+
 const (
 	StreamFrameTypeLTX       = StreamFrameType(1)
 	StreamFrameTypeReady     = StreamFrameType(2)
@@ -120,6 +124,9 @@ func (f *LTXStreamFrame) ReadFrom(r io.Reader) (int64, error) {
 		return 0, err
 	}
 
+	if nameN > MaxStreamNameSize {
+		return 0, fmt.Errorf("stream frame field too large: %d bytes", nameN)
+	}
 	name := make([]byte, nameN)
 	if _, err := io.ReadFull(r, name); err == io.EOF {
 		return 0, io.ErrUnexpectedEOF
@@ -173,6 +180,9 @@ func (f *DropDBStreamFrame) ReadFrom(r io.Reader) (int64, error) {
 		return 0, err
 	}
 
+	if nameN > MaxStreamNameSize {
+		return 0, fmt.Errorf("stream frame field too large: %d bytes", nameN)
+	}
 	name := make([]byte, nameN)
 	if _, err := io.ReadFull(r, name); err == io.EOF {
 		return 0, io.ErrUnexpectedEOF
@@ -208,6 +218,9 @@ func (f *HandoffStreamFrame) ReadFrom(r io.Reader) (int64, error) {
 		return 0, err
 	}
 
+	if n > MaxStreamNameSize {
+		return 0, fmt.Errorf("stream frame field too large: %d bytes", n)
+	}
 	leaseID := make([]byte, n)
 	if _, err := io.ReadFull(r, leaseID); err == io.EOF {
 		return 0, io.ErrUnexpectedEOF
@@ -253,6 +266,9 @@ func (f *HWMStreamFrame) ReadFrom(r io.Reader) (int64, error) {
 		return 0, err
 	}
 
+	if nameN > MaxStreamNameSize {
+		return 0, fmt.Errorf("stream frame field too large: %d bytes", nameN)
+	}
 	name := make([]byte, nameN)
 	if _, err := io.ReadFull(r, name); err == io.EOF {
 		return 0, io.ErrUnexpectedEOF
